@@ -245,6 +245,10 @@ Section ErrFacts.
 
   (* ---------------- caller side ---------------- *)
   Variable construct : cls -> shape -> list V -> kw -> ctor_result V MV.
+  Variable caller_hook : hook.      (* the caller application's onUserError: arbitrary *)
+
+  Lemma guarded_none : forall h, guarded_hook h = None.
+  Proof. intros [|]; reflexivity. Qed.
 
   Definition no_reserved (k : kw) : Prop := forall n, In n RESERVED -> aget String.eqb n k = None.
 
@@ -296,7 +300,7 @@ Section ErrFacts.
 
   (* full case analysis of _exception_from_message *)
   Lemma efm_cases : forall r (m : errmsg),
-    fst (exception_from_message construct r m) =
+    fst (exception_from_message construct caller_hook r m) =
     match aget String.eqb (m_error m) (uri_to_ecls r) with
     | Some c =>
         match ctor_call c m with
@@ -310,18 +314,18 @@ Section ErrFacts.
     destruct (aget String.eqb (m_error m) (uri_to_ecls r)) as [c|]; simpl; [|reflexivity].
     destruct (truthy_kw (m_kwargs m)); destruct (truthy_args (m_args m));
       match goal with |- context [construct ?a ?b ?c ?d] => destruct (construct a b c d) as [i|] end; simpl;
-      try reflexivity; destruct (c_truthy i); reflexivity.
+      rewrite ?guarded_none; simpl; try reflexivity; destruct (c_truthy i); reflexivity.
   Qed.
 
   (* registered class or generic fallback *)
   Lemma class_or_fallback : forall r (m : errmsg),
     (exists c i, aget String.eqb (m_error m) (uri_to_ecls r) = Some c /\ ctor_call c m = CtorOk i
                  /\ c_truthy i = true /\
-                 fst (exception_from_message construct r m) =
+                 fst (exception_from_message construct caller_hook r m) =
                    if meta_writable i then Ok (with_meta m i) else Raise AttributeError)
     \/
     ( (forall c i, aget String.eqb (m_error m) (uri_to_ecls r) = Some c -> ctor_call c m = CtorOk i -> c_truthy i = false)
-      /\ fst (exception_from_message construct r m) = Ok (generic_error m) ).
+      /\ fst (exception_from_message construct caller_hook r m) = Ok (generic_error m) ).
   Proof.
     intros r m. rewrite efm_cases.
     destruct (aget String.eqb (m_error m) (uri_to_ecls r)) as [c|] eqn:Eu.
@@ -338,7 +342,7 @@ Section ErrFacts.
   (* never lost: unless the registered class's instance has one of the five attributes as a read-only property *)
   Lemma never_lost : forall r (m : errmsg),
     (forall c i, aget String.eqb (m_error m) (uri_to_ecls r) = Some c -> ctor_call c m = CtorOk i -> meta_writable i = true) ->
-    exists e, fst (exception_from_message construct r m) = Ok e /\
+    exists e, fst (exception_from_message construct caller_hook r m) = Ok e /\
       (e = generic_error m \/ exists c i, aget String.eqb (m_error m) (uri_to_ecls r) = Some c /\
                                           ctor_call c m = CtorOk i /\ c_truthy i = true /\ e = with_meta m i).
   Proof.
@@ -397,23 +401,23 @@ Section ErrFacts.
   Lemma on_error_call : forall r p tbl q (m : errmsg),
     m_rtype m = 48%N ->
     aget N.eqb 48%N p = Some tbl -> find_req (m_request m) tbl = Some q -> rq_done q = false ->
-    let '(p', d) := on_error construct r p m in
+    let '(p', d) := on_error construct caller_hook r p m in
     (* the request is gone *)
     (exists tbl', aget N.eqb 48%N p' = Some tbl' /\ find_req (m_request m) tbl' = None) /\
-    d = match fst (exception_from_message construct r m) with
+    d = match fst (exception_from_message construct caller_hook r m) with
         | Ok e => Rejected (m_request m) e
         | Raise x => Escaped (m_request m) x
         end.
   Proof.
     intros r p tbl q m Ht Hp Hf Hd. unfold on_error. rewrite Ht. simpl. rewrite Hp, Hf, Hd.
-    destruct (fst (exception_from_message construct r m)) as [e|x]; (split; [|reflexivity]);
+    destruct (fst (exception_from_message construct caller_hook r m)) as [e|x]; (split; [|reflexivity]);
       exists (remove_req (m_request m) tbl); (split; [apply (aget_aset_same N.eqb Neqb_spec) | apply find_remove]).
   Qed.
 
   (* exception_from_message only reads URI, args, kwargs (through truthiness / or-empty) and the details *)
   Lemma efm_wire : forall r rt rq meta (m : errmsg),
-    exception_from_message construct r (over_the_wire rt rq meta m) =
-    exception_from_message construct r (mkErr rt rq (m_error m) (m_args m) (m_kwargs m) meta).
+    exception_from_message construct caller_hook r (over_the_wire rt rq meta m) =
+    exception_from_message construct caller_hook r (mkErr rt rq (m_error m) (m_args m) (m_kwargs m) meta).
   Proof.
     intros r rt rq meta m. unfold over_the_wire, marshal_tail.
     destruct (m_kwargs m) as [[|p d]|] eqn:Ek; simpl;
@@ -422,6 +426,7 @@ Section ErrFacts.
 
   (* ---------------- callee -> router -> caller ---------------- *)
   Variable note : pyexc -> V.
+  Variable callee_hook : hook.      (* the callee application's onUserError: arbitrary *)
 
   (* the ERROR as the caller's session sees it *)
   Definition caller_view (callee_reg : registry) (traceback_app : bool) (tbv : option V) (e : exn)
@@ -432,22 +437,22 @@ Section ErrFacts.
   Lemma end_to_end_spec : forall callee_reg caller_reg tba tbv (e : exn) inv_req call_req meta p tbl q,
     aget N.eqb 48%N p = Some tbl -> find_req call_req tbl = Some q -> rq_done q = false ->
     let m := caller_view callee_reg tba tbv e call_req meta in
-    let '(p', d) := end_to_end note construct callee_reg caller_reg tba tbv e inv_req call_req meta p in
+    let '(p', d) := end_to_end note callee_hook construct caller_hook callee_reg caller_reg tba tbv e inv_req call_req meta p in
     (exists tbl', aget N.eqb 48%N p' = Some tbl' /\ find_req call_req tbl' = None) /\
-    d = match fst (exception_from_message construct caller_reg m) with
+    d = match fst (exception_from_message construct caller_hook caller_reg m) with
         | Ok ce => Rejected call_req ce
         | Raise x => Escaped call_req x
         end.
   Proof.
     intros callee_reg caller_reg tba tbv e inv_req call_req meta p tbl q Hp Hf Hd m.
-    unfold end_to_end, invocation_error.
+    unfold end_to_end, invocation_error. rewrite guarded_none.
     set (reply := message_from_exception callee_reg 68%N inv_req e (if tba then tbv else None)).
     set (w := over_the_wire 48%N call_req meta reply).
     assert (Hw : m_rtype w = 48%N /\ m_request w = call_req).
     { destruct (wire_fields 48%N call_req meta reply) as (_ & H1 & H2 & _). split; assumption. }
     destruct Hw as [Hw1 Hw2].
     pose proof (on_error_call caller_reg p tbl q w Hw1 Hp) as H. rewrite Hw2 in H. specialize (H Hf Hd).
-    destruct (on_error construct caller_reg p w) as [p' d].
+    destruct (on_error construct caller_hook caller_reg p w) as [p' d].
     destruct H as [H1 H2]. split; [exact H1|]. rewrite H2.
     unfold w. rewrite efm_wire. reflexivity.
   Qed.
